@@ -65,9 +65,9 @@ def cpState0 (n : Nat) (l : List (Val F)) : State F :=
 
 /-- **the regenerated `ContinuousPool.Start`** (D24): the stop flag is up before anything else happens iff the context had
 already ended; the goroutine watching the context is started, and both wait groups are raised, before the first of the
-`n` workers is launched -/
+`n` workers is launched; what is returned is the context the users run under (D27) -/
 theorem cpool_Start_refines (n : Nat) (ended : Bool) (l : List (Val F)) (fuel : Nat) (hf : n + 1 ≤ fuel) :
-    observe (runFn (startExt ended) fuel cpool_Start (cpState0 n l)) ["recv.stopWorkers"] = some ([], [some (.bool ended)]) ∧
+    observe (runFn (startExt ended) fuel cpool_Start (cpState0 n l)) ["recv.stopWorkers"] = some ([.ref 1], [some (.bool ended)]) ∧
     traceOf (runFn (startExt ended) fuel cpool_Start (cpState0 n l)) =
       ["go func", "workersStarted.Add(…)", "recv.manager.runningWorkers.Add(…)"] ++ List.replicate n "go recv.startWorker" := by
   obtain ⟨is', h⟩ := cpLoop_spec (startExt (F := F) ended) n ended 1 n 0 (l.getD 8 .nil)
